@@ -24,7 +24,9 @@ CFGS = {
     "Mempool_t4.cfg": K(S4, G4, 3, 7, 3, True, 3),
     "Mempool_sim.cfg": K(S4, G4, 3, 7, 3, True, 3),
     "Mempool_simk.cfg": K(S4, G4, 3, 7, 3, True, 3),
+    "MempoolTrace.cfg": K(S4, G4, 3, 7, 4, True, 3),
 }
+TRACE = "mempool_trace.ndjson"
 
 
 def check_cfg_mirror(cfg):
@@ -59,6 +61,10 @@ def replay(ctx, binary, behs, cfg, label):
 def run(ctx):
     binary = vlib.go_build("mempool", ctx)
     case = ctx.replay_case()
+    if case and case.get("mode") == "conc":
+        conc(ctx, binary)   # un-gated: re-runs the recorded seed (VERIF_SEED) against the current tree
+        ctx.cov.setdefault("states", 1); ctx.cov.setdefault("transitions", 1); ctx.cov.setdefault("traces_validated_against_impl", 0)
+        return
     if case:
         res = vlib.run_driver(ctx, binary, ["-x", json.dumps(case["consts"])], behaviours=[case["steps"]])
         vlib.handle_driver_results(ctx, res)
@@ -99,5 +105,66 @@ def run(ctx):
         "the (V) part is un-gated: it validates the schedules the Go runtime happened to produce"]
 
 
+def conc_round(ctx, binary, n, seed, label):
+    cfg = "MempoolTrace.cfg"
+    check_cfg_mirror(cfg)
+    path = os.path.join(ctx.scratch_dir("trace"), TRACE)
+    res = vlib.run_driver(ctx, binary, ["-mode", "conc", "-n", str(n), "-out", path, "-x", json.dumps(CFGS[cfg])],
+                          timeout=900, env_extra={"VERIF_SEED": str(seed)})
+    o = {"mismatches": [r for r in res if r.get("kind") == "mismatch"],
+         "suspects": [r for r in res if r.get("kind") == "suspect"],
+         "summary": next((r for r in res if r.get("kind") == "summary"), {}), "path": path, "rejected": None, "tlc": None}
+    if o["mismatches"] or o["suspects"]:
+        return o
+    r = vlib.run_tlc(ctx, "MempoolTrace", cfg, workers=1, tags=("HWM",), timeout=1800, extra_files=[path])
+    o["tlc"] = r
+    if r.ok:
+        return o
+    if r.traces and "Accepted" in (r.out or ""):
+        hwm = int(r.traces[0])
+        lines = open(path).read().splitlines()
+        first = max([i for i, l in enumerate(lines[:hwm + 1]) if '"act":"Reset"' in l] or [0])
+        end = next((i for i in range(first + 1, len(lines)) if '"act":"Reset"' in lines[i]), len(lines))
+        o["rejected"] = ([json.loads(l) for l in lines[first:end]], hwm, lines[hwm] if hwm < len(lines) else "")
+        return o
+    if r.violated:
+        # an invariant / step property of Mempool.tla fails on a linearisation prefix of a REAL history:
+        # handled like a rejection (reproduce first)
+        o["rejected"] = ([], -1, "model property %s violated on the recorded history" % r.violated)
+        return o
+    raise vlib.Inconclusive("TLC-ERROR", "%s: %s" % (label, r.error or r.out[-800:]))
+
+
 def conc(ctx, binary):
-    pass
+    """(V): concurrent CheckTx x3 / committer / reaper on the real mempool, linearised by TLC against Mempool.tla."""
+    n = 40 if ctx.tier == "quick" else 400
+    label = "concurrent callers seed %d" % ctx.seed
+    o = conc_round(ctx, binary, n, ctx.seed, label)
+    if o["mismatches"] or o["suspects"] or o["rejected"]:
+        ctx.log("%s: disagreement (%d panics, %d hangs, rejected=%s) — re-running the same seed twice" % (
+            label, len(o["mismatches"]), len(o["suspects"]), bool(o["rejected"])))
+        again = [conc_round(ctx, binary, max(n, 400), ctx.seed, label) for _ in (1, 2)]
+        if o["mismatches"]:
+            m = o["mismatches"][0]
+            if all(any(x.get("key") == m.get("key") for x in a["mismatches"]) for a in again):
+                ctx.violation(m.get("key"), m.get("what", ""), m.get("case"))
+                return
+            raise vlib.Inconclusive("FLAKY", "%s did not reproduce twice" % m.get("key"))
+        if o["suspects"]:
+            if all(a["suspects"] for a in again):
+                ctx.violation("C40:conc:hang", "concurrent callers of the mempool never return (3 of 3 runs of the seed)",
+                              {"mode": "conc", "seed": ctx.seed, "events": o["suspects"][0].get("events")})
+                return
+            raise vlib.Inconclusive("FLAKY", "hang of concurrent callers did not reproduce twice (timing-only)")
+        if all(a["rejected"] for a in again):
+            ev, hwm, nxt = o["rejected"]
+            ctx.violation("C40:conc:not-linearizable",
+                          "history of concurrent callers has no linearisation w.r.t. Mempool.tla: longest consumable prefix ends at line %d, next event %s (3 of 3 runs of the seed)" % (hwm, nxt),
+                          {"mode": "conc", "seed": ctx.seed, "events": ev})
+            return
+        raise vlib.Inconclusive("FLAKY", "rejected history did not reproduce twice")
+    s, r = o["summary"], o["tlc"]
+    ctx.add("traces_validated_against_impl", int(s.get("runs", 0)))
+    ctx.add("impl_calls_concurrent", int(s.get("ops", 0)))
+    ctx.add_tlc(r, "linearisation of %d concurrent runs" % s.get("runs", 0))
+    ctx.log("%s: %d runs, %d calls accepted (%d states, %.0fs)" % (label, s.get("runs", 0), s.get("ops", 0), r.distinct, r.wall))
